@@ -17,7 +17,7 @@ TRUSTED = ["H5.Model.TreeBuilder / H5.Model.Tokenizer make every Python exceptio
            "None attribute, recursion, fuel for every loop) and are tied to the code by correspondence, including equality "
            "of the exception class and site when the real parser raises; the invariant proof that no site is reachable is "
            "not done: totality is decided by search on the real code",
-           "CPython recursion limit, minidom/ElementTree internals, wall-clock termination (observed with a time limit)"]
+           "CPython recursion limit, minidom/ElementTree internals, termination observed with a CPU-time limit per case (ITIMER_PROF, so machine load cannot cause a timeout)"]
 RULE = ("real parser on: soup/token lists/exhaustive tag sequences of the tree correspondence (both builders, fragments in "
         "every container, scripting on/off), random bytes, EOF at every offset of corpus documents, depth series "
         "n in {10,100,1000,5000(,50000)} for every nestable tag class under Python's DEFAULT recursion limit; oracle: no "
@@ -37,8 +37,8 @@ def _alarm(*a):
 
 def parse_guarded(data, tb="etree", container=None, limit=8.0, **kw):
     import html5lib
-    signal.signal(signal.SIGALRM, _alarm)
-    signal.setitimer(signal.ITIMER_REAL, limit)
+    signal.signal(signal.SIGPROF, _alarm)
+    signal.setitimer(signal.ITIMER_PROF, limit)
     try:
         p = html5lib.HTMLParser(tree=html5lib.getTreeBuilder(tb), namespaceHTMLElements=kw.pop("ns", True))
         if container is not None:
@@ -51,7 +51,7 @@ def parse_guarded(data, tb="etree", container=None, limit=8.0, **kw):
     except Exception as e:
         return None, type(e).__name__
     finally:
-        signal.setitimer(signal.ITIMER_REAL, 0)
+        signal.setitimer(signal.ITIMER_PROF, 0)
 
 
 def skeleton_problem(abstract):
